@@ -739,7 +739,7 @@ def b_bytes(ex, a, k, mutable=False):
     v = a[0]
     if isinstance(v, SBytes):
         v.commit()
-        return SBytes(v.length, v._at, mutable, conc=v.conc)
+        return N.clone_meta(v, SBytes(v.length, v._at, mutable, conc=v.conc))
     if isinstance(v, bool):
         v = int(v)
     if isinstance(v, int):
@@ -878,6 +878,9 @@ def seg_sum(ex, seg):
 
 
 def b_sum(ex, a, k):
+    if isinstance(a[0], SBytes):
+        r = N.bytes_sum(ex, a[0])
+        return N.binop(ex, ast.Add(), a[1], r) if len(a) > 1 else r
     if isinstance(a[0], SList) and a[0].mid is not None:
         l = a[0]
         acc = a[1] if len(a) > 1 else 0
